@@ -268,6 +268,37 @@ def mf_multi_case(args):
             "move": float(move)}
 
 
+def sequence_case(args):
+    """Within ONE process: unique=True computations for the same eigenvalue multiset written in different orders, one
+    after the other (state left behind by an earlier object must not leak into a later one)."""
+    ev, method = args
+    import itertools as it
+    import oqupy as oq
+    from . import models as M_
+    d = len(ev)
+    bad = []
+    h = M_.generic_herm(d, 3, 0.6)
+    rho = M_.generic_state(d, 2)
+    for order in it.permutations(range(d)):
+        op = np.diag(np.array([ev[i] for i in order], dtype=complex))
+        res = {}
+        for unique in (True, False):
+            bath = oq.Bath(op, oq.PowerLawSD(alpha=0.4, zeta=1.0, cutoff=3.0, cutoff_type="exponential", temperature=0.3))
+            prm = oq.TempoParameters(dt=0.2, epsrel=EPS, dkmax=2)
+            if method == "tempo":
+                dyn = oq.Tempo(oq.System(h), bath, prm, rho, 0.0, unique=unique).compute(4.4 * 0.2, progress_type="silent")
+            else:
+                pt = oq.pt_tempo_compute(bath, 0.0, 4.4 * 0.2, prm, unique=unique, progress_type="silent")
+                dyn = oq.compute_dynamics(oq.System(h), rho, process_tensor=pt, progress_type="silent")
+            res[unique] = np.array(dyn.states)
+        dev = np.abs(res[True] - res[False]).max()
+        if dev > tol(EPS):
+            bad.append((f"sequence|{method}|same-multiset-different-order|state-mismatch",
+                        f"eigenvalues {[ev[i] for i in order]} (after other orders of the same multiset in this process): "
+                        f"unique on/off differ by {dev:.2e}"))
+    return {"bad": bad, "n": 12}
+
+
 def mf_multi_cases():
     import itertools as it
     out = []
@@ -291,6 +322,11 @@ def run(tier, seed):
         if r["dev"] is not None:
             mm_maxdev = max(mm_maxdev, r["dev"])
             mm_nontrivial += int(r["move"] > 0.01)
+    sq = [(ev, m) for ev in ((3.0, 1.0, 0.0), (1.0, 0.0, -2.0), (1.0, 1.0, 0.0)) for m in ("tempo", "pt")]
+    sqr = pmap(sequence_case, sq, chunksize=1, seed=seed)
+    for c, r in zip(sq, sqr):
+        for cls, what in r["bad"]:
+            rep.add(Violation(cls, what, {"part": "sequence", "args": [list(c[0]), c[1]]}))
     mcases = map_cases()
     mres = pmap(map_case, mcases, seed=seed)
     map_patterns = set()
@@ -344,7 +380,7 @@ def run(tier, seed):
                 "bath_influence": r["infl"], "blocked": r["blocked"], "violation": r["cls"]}
                for r in (flat[0], flat[len(flat) // 2], flat[-1])]
     rep.coverage = {
-        "evaluations": len(mcases) + n_eval + len(mmc),
+        "evaluations": len(mcases) + n_eval + len(mmc) + 12 * len(sq),
         "distinct_nontrivial": len(keys) + len(map_patterns),
         "mean_field_multi_system": {"cases": len(mmc), "nontrivial": mm_nontrivial, "max_dev": mm_maxdev,
                                     "rule": "2-3 systems with different coupling operators, all orders x memory x basis"},
@@ -388,6 +424,10 @@ def run(tier, seed):
 
 
 def replay(rp):
+    if rp.get("part") == "sequence":
+        a = rp["args"]
+        r = sequence_case((tuple(a[0]), a[1]))
+        return {"obs": r["bad"][:3], "violation": r["bad"][0][0] if r["bad"] else None}
     if rp.get("part") == "mfmulti":
         a = rp["args"]
         r = mf_multi_case((a[0], tuple(a[1]), a[2], a[3]))
